@@ -370,7 +370,10 @@ def judge_one(ctx, i, c, orc, outs, by, jby):
                     ctx.count("value_bound_skipped_improper_greedy_policy")
                     tol = None
                 else:
-                    tol = eps * float(steps[s])
+                    # the returned policy sigma is uniform over isclose-ties of the planner's action values,
+                    # so V_{k+1} = T_sigma V_k only up to msdm's tie window w:  V_k - V^sigma <= (eps + w) N^sigma
+                    wwin = 1e-8 + 1e-5 * max([abs(o["V"][x]) for x in listed if not math.isinf(o["V"][x])] + [0.0])
+                    tol = (eps + wwin) * float(steps[s])
             else:
                 tol = b
             if tol is not None and not close(o["V"][s], vstar[s], tol):
